@@ -13,8 +13,9 @@
    machine returns, one call (C13_interrupt_is_transparent) or any number of calls (C13_calls_ignore_dead_fields), as long
    as the reference run stays inside the program and keeps running.  NOT proved: the case of a cursor beyond column 0 (one
    line break is forced by design, after which TAB, POS and print zones differ), runs that trace (TRON re-announces the
-   line), calls that cross an INPUT / INKEY$ wait, and STOP / END end to end (their reference run is another program);
-   these are checked on runs by the C13 monitor. *)
+   line) and calls that cross an INPUT / INKEY$ wait; these are checked on runs by the C13 monitor.  STOP and END inside
+   the program are covered like the interrupt (C13_stop_is_transparent, C13_end_is_transparent): after the report, the
+   prompt and CONT, the call returns what the machine would have returned had the statement been skipped. *)
 From BL Require Import Base.Prelude Lang.Ast Mach.Val Mach.Compile Mach.Listing Mach.Runtime Proofs.Slicing Proofs.ContTrip Proofs.Dirty Proofs.DeadFields Proofs.ContRun.
 Local Open Scope N_scope.
 
@@ -218,3 +219,51 @@ Example C13_transparent_applies :
   /\ safe_run Drv.Driver.dummy_oracle (r_entry r) (N.to_nat 200) (has_ind r) r
   /\ forallb not_edit (l_ops (pg_link (r_prog r))) = true.
 Proof. exact transparent_premises. Qed.
+
+(* ---- STOP and END inside the program, then CONT (Proofs/ContRun.v) ---- *)
+Theorem C13_stop_is_transparent : forall O r j k k1 k2 k3,
+  r_state r = StRunning -> r_pc r + 1 < r_entry r -> r_dirty r = false -> r_tron r = false -> Linked (r_prog r) ->
+  r_entry r = pg_direct (r_prog r) -> r_col r = 0 -> tidy r -> stack_is_full r = false ->
+  nthN (l_ops (pg_link (r_prog r))) (r_pc r) = Some OpStop ->
+  let r2 := set_pc r (r_pc r + 1) in
+  safe_run O (r_entry r) (N.to_nat k) (has_ind r) r2 ->
+  let rS := stopped_at r in
+  let rB := at_prompt rS in
+  rt_execute O r (N.succ j) = Ok (rS, EvRunning)
+  /\ execs O rS [k1; k2; k3] = Ok (rB, [EvErrors [in_line (mkErr E_Break None (0, 0)) (cur_line r2)];
+                                          EvPrint (match r_prompt r with [] => [] | p => p ++ [c_nl] end); EvStopped])
+  /\ rt_enter O rB cont_text = Ok (entered rB, true)
+  /\ same_up_to (firstnN (pg_direct (r_prog r)) (l_ops (pg_link (r_prog r))) ++ [OpCont; OpEnd])
+                (rt_execute O (entered rB) (N.succ k)) (rt_execute O r2 k).
+Proof. exact stop_is_transparent. Qed.
+Print Assumptions C13_stop_is_transparent.
+
+Theorem C13_end_is_transparent : forall O r j k,
+  r_state r = StRunning -> r_pc r + 1 < r_entry r -> r_dirty r = false -> r_tron r = false -> Linked (r_prog r) ->
+  r_entry r = pg_direct (r_prog r) -> r_col r = 0 -> tidy r ->
+  nthN (l_ops (pg_link (r_prog r))) (r_pc r) = Some OpEnd ->
+  let r2 := set_pc r (r_pc r + 1) in
+  safe_run O (r_entry r) (N.to_nat k) (has_ind r) r2 ->
+  let rB := ended_at r in
+  rt_execute O r (N.succ j) = Ok (rB, EvPrint (match r_prompt r with [] => [] | p => p ++ [c_nl] end))
+  /\ rt_enter O rB cont_text = Ok (entered rB, true)
+  /\ same_up_to (firstnN (pg_direct (r_prog r)) (l_ops (pg_link (r_prog r))) ++ [OpCont; OpEnd])
+                (rt_execute O (entered rB) (N.succ k)) (rt_execute O r2 k).
+Proof. exact end_is_transparent. Qed.
+Print Assumptions C13_end_is_transparent.
+
+(* non-vacuity: machines reached through enter / execute only, standing in front of a STOP and in front of an END *)
+Example C13_stop_applies :
+  let r := before_stop in
+  r_state r = StRunning /\ r_pc r + 1 < r_entry r /\ r_dirty r = false /\ r_tron r = false /\ Linked (r_prog r)
+  /\ r_entry r = pg_direct (r_prog r) /\ r_col r = 0 /\ tidy r /\ stack_is_full r = false
+  /\ nthN (l_ops (pg_link (r_prog r))) (r_pc r) = Some OpStop
+  /\ safe_run Drv.Driver.dummy_oracle (r_entry r) (N.to_nat 50) (has_ind r) (set_pc r (r_pc r + 1)).
+Proof. exact stop_premises. Qed.
+Example C13_end_applies :
+  let r := before_end in
+  r_state r = StRunning /\ r_pc r + 1 < r_entry r /\ r_dirty r = false /\ r_tron r = false /\ Linked (r_prog r)
+  /\ r_entry r = pg_direct (r_prog r) /\ r_col r = 0 /\ tidy r
+  /\ nthN (l_ops (pg_link (r_prog r))) (r_pc r) = Some OpEnd
+  /\ safe_run Drv.Driver.dummy_oracle (r_entry r) (N.to_nat 50) (has_ind r) (set_pc r (r_pc r + 1)).
+Proof. exact end_premises. Qed.
